@@ -7,6 +7,7 @@ package verifhook
 
 import (
 	"bytes"
+	"context"
 	"fmt"
 	"io"
 	"os/exec"
@@ -50,6 +51,18 @@ func (m *Mutex) Unlock() {
 		return
 	}
 	S.Unlock(m)
+}
+
+// TryLock stands for sync.Mutex.TryLock.
+func (m *Mutex) TryLock() bool {
+	if S == nil {
+		return m.real.TryLock()
+	}
+	if m.Held {
+		return false
+	}
+	S.Lock(m)
+	return true
 }
 
 type WaitGroup struct {
@@ -106,6 +119,15 @@ func Command(name string, args ...string) *Cmd {
 	c := &Cmd{Path: name, Args: append([]string{name}, args...)}
 	if S == nil {
 		c.real = exec.Command(name, args...)
+	}
+	return c
+}
+
+// CommandContext stands for exec.CommandContext (the context is only honoured by the real command).
+func CommandContext(ctx context.Context, name string, args ...string) *Cmd {
+	c := &Cmd{Path: name, Args: append([]string{name}, args...)}
+	if S == nil {
+		c.real = exec.CommandContext(ctx, name, args...)
 	}
 	return c
 }
